@@ -729,7 +729,18 @@ pub fn run_c15(report: &mut Report) {
         ("as-path-regex-and-set", "AS-A AND <^AS65001 .* AS65002$>".into(), Plan::default()),
         ("attribute-match", "community.contains(65000:1)".into(), Plan::default()),
         ("attribute-match-2", "community(65000:1)".into(), Plan::default()),
+        // registry data that can never be evaluated: filter-sets that refer to themselves / to each other
+        ("filter-set-referring-to-itself", "FLTR-LOOP".into(), Plan::default()),
+        ("filter-sets-referring-to-each-other", "AS-A AND FLTR-P".into(), Plan::default()),
+        // sets the IRR does not know, error answers to route queries (every kind of unobtainable data)
+        ("unknown-route-set", "RS-GONE".into(), Plan::default()),
+        ("unknown-filter-set", "FLTR-GONE OR AS65004".into(), Plan::default()),
+        ("irr-error-F-route-query", "AS65009".into(), Plan { faults: vec![], fault_on_query: vec![("!gAS65009".into(), IrrFault::Other)] }),
     ];
+    _ = model.db.routes4.insert("AS65009".into(), vec!["203.0.113.0/24".into()]);
+    _ = model.db.filter_sets.insert("FLTR-LOOP".into(), vec!["FLTR-LOOP".into()]);
+    _ = model.db.filter_sets.insert("FLTR-P".into(), vec!["FLTR-Q OR AS65001".into()]);
+    _ = model.db.filter_sets.insert("FLTR-Q".into(), vec!["{ 192.0.2.0/24 } AND FLTR-P".into()]);
     let bad: Vec<(&str, String, Plan)> = candidates_bad.into_iter().filter(|(_, e, _)| parseable(e)).collect();
     let good: Vec<(&str, Ex)> = vec![("good-a", Ex::AsSet("AS-A".into())), ("good-b", Ex::AutNum("AS65003".into())), ("good-c", Ex::RouteSet("RS-X".into()))];
     let mut scenarios: Vec<(String, Vec<(String, String)>, Vec<usize>, Plan)> = Vec::new(); // (kind, [(name, expr)], indices of bad, plan)
